@@ -31,7 +31,10 @@ TRUSTED = ["numpy nanmean/nanstd/std/var/max/min/ptp/argmax/argmin: not modelled
            "(checked against exact nanmean/nanvar in Coq) or are compared in regime T (2^-30 relative) with the exact rational",
            "numpy.take/delete/insert/append index semantics are modelled by list functions validated on every generated case"]
 ASSUMPTIONS = ["raw values on dyadic grids (|x| <= 64 step 2^-6, or +-2^20 offsets with step 8) so that the rounding error stays far below the 2^-30 tolerance",
-               "ntrait >= 1; insert/incorp with an index list use as many value rows as indices (numpy broadcasting of a single row not generated)"]
+               "ntrait >= 1; insert/incorp with an index list use as many value rows as indices (numpy broadcasting of a single row not generated)",
+               "numpy.insert does not validate an index *list* (entries below -n wrap around in the enlarged array): such a step is not modelled, "
+               "the history is compared up to it and the predicate resynchronises on the implementation's state",
+               "a zero scale (1.0/0.0 = inf) is outside the model: from_numpy never produces it"]
 
 CLS = {"B": ("pybrops.popgen.bvmat.DenseBreedingValueMatrix", "DenseBreedingValueMatrix"),
        "E": ("pybrops.popgen.bvmat.DenseEstimatedBreedingValueMatrix", "DenseEstimatedBreedingValueMatrix"),
@@ -491,6 +494,11 @@ def _check_state(tag, exp, snap, t, first, strict_nan_mean, bad):
         for i in range(n):
             if col[i] is not None and ucol[i] is not None and not _close(ucol[i], col[i]):
                 B("trait %d taxon %d: unscale() = %s, raw value %s" % (j, i, float(ucol[i]), float(col[i]))); break
+        if first and exp.exact and loc[j] is not None:
+            # "to rounding error": the bound proved in C15_roundtrip_rounding_error_binary64 (4u|x-l| + u|x| + O(u^2), u = 2^-53), with slack
+            for i in range(n):
+                if col[i] is not None and ucol[i] is not None and abs(ucol[i] - col[i]) > Fraction(5, 2 ** 53) * (abs(col[i] - loc[j]) + abs(col[i])):
+                    B("trait %d taxon %d: unscale() = %r differs from the raw value %r by more than rounding error" % (j, i, float(ucol[i]), float(col[i]))); break
         vals = [v for v in col if v is not None]
         stale = tag.split("op=")[1].split(":")[0].split(" ")[0] in INPLACE if "op=" in tag else False
         if not vals:
@@ -764,10 +772,12 @@ def nontrivial(case, out):
     if case["kind"] != "bv": return len(case["ops"]) >= 2 and len(case["raw"]) >= 2
     if len(case["ops"]) < 2 or "steps" not in out: return False
     changed = False
-    for k in range(1, len(out["steps"])):
-        a, b = out["steps"][k - 1], out["steps"][k]
-        if "exc" in b: out["steps"][k] = dict(a, _carried=True); continue
+    a = out["steps"][0]
+    if "exc" in a: return False
+    for b in out["steps"][1:]:
+        if "exc" in b: continue                                   # a failing operation leaves the matrix as it was
         if b["unscale"] != a["unscale"] and len({tuple(r) for r in a["unscale"]}) >= 2: changed = True
+        a = b
     return changed
 
 def describe(case, out):
